@@ -152,6 +152,8 @@ class RsEmitter:
             return "vfd::view::<vfd::Raw<%s>, %s>(%s.as_ptr(), %d)" % (ety, vt, a, len(strs))
         if k == "cb":
             return self.callback(t, v, pre, post, m, pname)
+        if k == "tr":
+            return self.trait_object(t, v, pre, post)
         if k == "write":
             w = self.fresh("w")
             if v["mode"] == "buffer":
@@ -173,6 +175,10 @@ class RsEmitter:
             return t[1]
         if k == "unit":
             return "()"
+        if k == "opt" and t[1][0] in ("prim", "enum", "struct"):
+            return "diplomat_runtime::DiplomatOption<%s>" % self.rs_plain_ty(t[1])
+        if k in ("slice", "str"):
+            return self.view_ty(t)[0]
         raise Unsupported(t)
 
     def callback(self, t, v, pre, post, m, pname):
@@ -214,6 +220,44 @@ class RsEmitter:
                     % (ret_rs, d, run, n))
         post.append(("freebox", d))
         return "diplomat_runtime::DiplomatCallback::<%s> { data: %s as *mut core::ffi::c_void, run_callback: %s, destructor: None }" % (ret_rs, d, run)
+
+    def trait_object(self, t, v, pre, post):
+        """Foreign implementation of a bridge trait: the macro's DiplomatTraitStruct_<T> { data, vtable } built by hand."""
+        n = v["cb"]
+        null_data = bool(v.get("null_data"))
+        decls = self.decls.setdefault(self.cur_mod, [])
+        if null_data:
+            decls.append("static mut VF_TR_CNT_%d: i32 = 0;" % n)
+        fields = []
+        for mi, (mname, mm, margs, mret) in enumerate(t[2]):
+            ret_rs = self.rs_plain_ty(mret)
+            params = ["data: *const core::ffi::c_void"] + ["a%d: %s" % (i, self.rs_plain_ty(a)) for i, a in enumerate(margs)]
+            body = ["assert!(data.is_null()); let j = VF_TR_CNT_%d; VF_TR_CNT_%d = j + 1;" % (n, n) if null_data else "let cnt = data as *mut i32; let j = *cnt; *cnt = j + 1;",
+                    "let mut line = format!(\"CB %d#{} %s\", j);" % (n, mname)]
+            for i, a in enumerate(margs):
+                body.append("line.push(' '); line.push_str(&%s);" % self.fmt("a%d" % i, a, None, None))
+            body.append("crate::vf::log(line);")
+            if mret != ("unit",):
+                body.append("match j {")
+                for j, (imi, _, cret) in enumerate(v["inv"]):
+                    if imi == mi:
+                        body.append("    %d => %s," % (j, self.arg(mret, cret, [], [])))
+                body.append("    _ => { crate::vf::log(\"CB %d %s called out of script\".to_string()); std::process::abort() }" % (n, mname))
+                body.append("}")
+            decls.append("unsafe extern \"C\" fn vf_tr_%d_%s(%s)%s {\n        %s\n    }" % (
+                n, mname, ", ".join(params), "" if mret == ("unit",) else " -> " + ret_rs, "\n        ".join(body)))
+            fields.append("run_%s_callback: vf_tr_%d_%s" % (mname, n, mname))
+        decls.append("unsafe extern \"C\" fn vf_tr_drop_%d(data: *const core::ffi::c_void) { crate::vf::log(\"CBDROP %d\".to_string()); if !data.is_null() { drop(Box::from_raw(data as *mut i32)); } }" % (n, n))
+        if null_data:
+            d = "core::ptr::null()"
+        else:
+            dv = self.fresh("trd")
+            pre.append("let %s = Box::into_raw(Box::new(0i32));" % dv)
+            d = "%s as *const core::ffi::c_void" % dv
+            if not v["destructor"]:
+                post.append(("freebox", dv))
+        return "DiplomatTraitStruct_%s { data: %s, vtable: %s_VTable { destructor: %s, size: 4, alignment: 4, %s } }" % (
+            t[1], d, t[1], ("Some(vf_tr_drop_%d)" % n) if v["destructor"] else "None", ", ".join(fields))
 
     # ------------------------------------------------------------------ printing: Rust *expression* of type String
     def fmt(self, e, t, adopt, retv):
